@@ -6,6 +6,7 @@ import (
 	"fmt"
 	mrand "math/rand"
 	"os"
+	"regexp"
 	"runtime"
 	"runtime/debug"
 	"strconv"
@@ -109,6 +110,48 @@ type workerOut struct {
 	WallS      float64        `json:"wall_s"`
 	RtDet      bool           `json:"runtime_deterministic"`
 	FPCapped   bool           `json:"fp_capped"`
+	KnownHits  int            `json:"known_hits"`
+}
+
+type knownEntry struct {
+	Harness string `json:"harness"`
+	Class   string `json:"class"`
+	Regex   string `json:"msg_regex"`
+	re      *regexp.Regexp
+}
+
+// loadKnown reads the open known findings the parent passes in HYSIM_KNOWN (JSON list).
+func loadKnown(harness string) []knownEntry {
+	var ks, out []knownEntry
+	if v := os.Getenv("HYSIM_KNOWN"); v != "" {
+		_ = json.Unmarshal([]byte(v), &ks)
+	}
+	for _, k := range ks {
+		if k.Harness != "" && k.Harness != harness {
+			continue
+		}
+		if k.Regex != "" {
+			k.re = regexp.MustCompile("(?s)" + k.Regex)
+		}
+		out = append(out, k)
+	}
+	return out
+}
+
+func matchKnown(ks []knownEntry, v *Violation) int {
+	if v == nil {
+		return -1
+	}
+	for i, k := range ks {
+		if k.Class != "" && k.Class != v.Class {
+			continue
+		}
+		if k.re != nil && !k.re.MatchString(v.Msg) {
+			continue
+		}
+		return i
+	}
+	return -1
 }
 
 func envInt(k string, def int64) int64 {
@@ -175,6 +218,8 @@ func Main(t *testing.T, hs ...*Harness) {
 		prog, _ = os.OpenFile(progPath, os.O_CREATE|os.O_WRONLY|os.O_TRUNC, 0o644)
 	}
 	seenClass := map[string]bool{}
+	known := loadKnown(h.Name)
+	knownSeen := map[int]bool{}
 	h.warmUp(t)
 	for i := lo; i < hi; i++ {
 		if time.Since(t0) > budget {
@@ -221,14 +266,22 @@ func Main(t *testing.T, hs ...*Harness) {
 		if len(out.Det) < detN {
 			out.Det = append(out.Det, detSample{Seed: seed, EvHash: fmt.Sprintf("%016x", x.evHash), SchedN: x.schedN, SchedH: fmt.Sprintf("%016x", x.schedH), FP: fmt.Sprintf("%016x", x.fp), SimNs: int64(x.simNs), Yields: x.yieldIdx, Draws: x.draws})
 		}
-		if x.Viol != nil && x.Inconc == "" {
+		if k := matchKnown(known, x.Viol); x.Viol != nil && x.Inconc == "" && k >= 0 {
+			// a recorded known finding: report one example, keep exploring, never let it use up
+			// the violation budget of this worker
+			out.KnownHits++
+			if !knownSeen[k] {
+				knownSeen[k] = true
+				out.Violations = append(out.Violations, h.minimise(t, seed, sc, x, tier, shrinkBudget/4))
+			}
+		} else if x.Viol != nil && x.Inconc == "" {
 			cls := x.Viol.Class
-			if !seenClass[cls] || len(out.Violations) < maxViol {
+			if !seenClass[cls] || len(out.Violations) < maxViol+len(knownSeen) {
 				seenClass[cls] = true
 				rp := h.minimise(t, seed, sc, x, tier, shrinkBudget)
 				out.Violations = append(out.Violations, rp)
 			}
-			if len(out.Violations) >= maxViol {
+			if len(out.Violations) >= maxViol+len(knownSeen) {
 				break
 			}
 		}
